@@ -642,7 +642,7 @@ def main():
         'wall_s': round(wall, 2),
         'violations': len(violations),
     }
-    if not a.no_evidence and a.unit is None:
+    if not a.no_evidence and a.unit is None and not a.no_kani and not a.no_native:   # partial runs never overwrite the evidence
         os.makedirs(os.path.join(VERIF, 'evidence'), exist_ok=True)
         json.dump(ev, open(os.path.join(VERIF, 'evidence', f'{pid}.json'), 'w'), indent=1)
     print(f"{pid}: obligations={obligations} discharged={discharged} violations={len(violations)} known={len(known_hits)} undecided={len(undecided)} bounded={len(bounded)} wall={wall:.1f}s exit={exitcode}")
